@@ -329,6 +329,8 @@ def _fail_facts(path, src, method):
             inner = strip_refs(cond[1])
             if inner[0] == "try":
                 continue
+            while inner[0] == "call" and inner[1] in ("Option<&T>::copied", "Option<&T>::cloned") and inner[3]:
+                inner = strip_refs(inner[3][0])
             if inner[0] == "call" and inner[1] in ("[T]::get", "[T]::first") and method == "read_u8":
                 cc = [_canon(x, src) for x in inner[3]]
                 v = walk.atom_variant(a)
@@ -451,8 +453,9 @@ def _is_input_at_cur(val, src):
         return cc[0] == "INPUT" and cc[1] == "CUR"
     # payload of input.get(cursor): Some(&byte)
     v = val
-    while isinstance(v, tuple) and v[0] in ("field", "variant", "deref", "ref"):
-        v = v[1]
+    while isinstance(v, tuple) and (v[0] in ("field", "variant", "deref", "ref") or
+                                    (v[0] == "call" and v[1] in ("Option<&T>::copied", "Option<&T>::cloned") and v[3])):
+        v = v[1] if v[0] != "call" else v[3][0]
     if isinstance(v, tuple) and v[0] == "call" and v[1] in ("[T]::get",):
         cc = [_canon(a, src) for a in v[3]]
         return cc[0] == "INPUT" and cc[1] == "CUR"
